@@ -125,13 +125,21 @@ class Normalize(Family):
 
     def configs(self, tier):
         Ls = (2, 3, 4) if tier == "quick" else (2, 3, 4, 5)
-        return [{"L": L, "via": via} for L in Ls for via in ("process", "normalize_y", "normalize_x")]
+        # "scale_x+normalize_x": the scale is any NON-ZERO real, so the abscissae may be decreasing when they are normalised
+        return [{"L": L, "via": via} for L in Ls for via in ("process", "normalize_y", "normalize_x", "scale_x+normalize_x")]
 
     def run(self, ctx, inst, L, via):
         from traffic_weaver import process, Weaver
         vs = ctx.reals("v", L)
         lo, hi = ctx.real("lo"), ctx.real("hi")
         ctx.assume(ctx.lt(lo, hi))
+        if via == "scale_x+normalize_x":
+            base = ctx.reals("b", L)
+            increasing(ctx, base)
+            c = ctx.real("c")
+            ctx.assume(ctx.ne(c, 0))
+            for v, b in zip(vs, base):
+                ctx.assume(ctx.eq(v, b * c))
         if via == "normalize_x":
             increasing(ctx, vs)
         # precondition: not a constant array
@@ -142,6 +150,13 @@ class Normalize(Family):
             xs = ctx.reals("x", L)
             increasing(ctx, xs)
             out = Weaver(arr(ctx, xs), arr(ctx, vs)).normalize_y(lo, hi).get()[1]
+        elif via == "scale_x+normalize_x":
+            ys = ctx.reals("y", L)
+            w = Weaver(arr(ctx, base), arr(ctx, ys)).scale_x(c).normalize_x(lo, hi)
+            out = w.get()[0]
+            ref = w.get_reference()[0]
+            for i in range(L):
+                ctx.claim("reference-normalised-like-working", ctx.eq(ref[i], out[i]), {"i": i})
         else:
             ys = ctx.reals("y", L)
             out = Weaver(arr(ctx, vs), arr(ctx, ys)).normalize_x(lo, hi).get()[0]
